@@ -26,7 +26,8 @@ LEVEL_TEXT = ("Placements of cancel / matching response / deadline on a virtual 
               "completion time, cancelled notifications and callback invocations are compared with a "
               "timeline model. Held = on the schedules explored."
               " Also params objects with a history (reused for a second request, own _meta, own progressToken)."
-              ' Also one token governing several in-flight and later requests.')
+              ' Also one token governing several in-flight and later requests.'
+              ' Also unprintable and argument-less callback exceptions, falsy progress values.')
 LEVEL_NOTE = ("Trusted: virtual-time loop; the oracle accepts either neighbour inside ambiguous windows "
               "(simultaneous events, response within one poll interval after cancel).")
 RULE = ("schedule = (timeout, cancel time|none|pre, response time|none, traffic pattern, progress stream, "
